@@ -57,10 +57,26 @@ pub fn request_of(kind: u8, target: Id) -> GetRequestSpecific {
 
 /// run one lookup to completion against honest peers (peers in `silent` never answer: their requests expire)
 pub fn run_lookup(s: &mut Scn, kind: u8, target: Id, silent: &[bool]) {
+    run_lookup_v(s, kind, target, silent, None)
+}
+
+/// `vote`: every answer reports this address as the requester's (the node's public address as its peers see it)
+pub fn run_lookup_v(s: &mut Scn, kind: u8, target: Id, silent: &[bool], vote: Option<std::net::SocketAddrV4>) {
     let (tx, _rx) = flume::unbounded();
     s.node.actor.verif_get(request_of(kind, target), ResponseSender::ClosestNodes(tx));
     for round in 0..200 {
-        s.step(&mut |s, inc| if silent[inc.peer] { Reply::Silent } else { s.honest(inc) });
+        s.step(&mut |s, inc| {
+            if silent[inc.peer] {
+                return Reply::Silent;
+            }
+            match vote {
+                Some(a) => match crate::net::honest_reply(&s.peers[inc.peer], inc, &s.all_nodes()) {
+                    Some(mt) => Reply::MsgIp(mt, a),
+                    None => Reply::Silent,
+                },
+                None => s.honest(inc),
+            }
+        });
         if s.snap().iterative_queries == 0 {
             break;
         }
@@ -77,8 +93,24 @@ pub fn cache_case(r: &mut Rng, n_targets: usize, n_ops: usize, roll: bool) -> St
 
 /// `legacy`: peers without signed-peers support: a get_signed_peers lookup nobody answers has no candidate at all
 pub fn cache_case_x(r: &mut Rng, n_targets: usize, n_ops: usize, roll: bool, legacy: bool) -> String {
+    cache_case_r(r, n_targets, n_ops, roll, legacy, false)
+}
+
+/// `rekey`: the node lives at a public address and every answer reports it: after its first lookups it confirms the
+/// address by a ping to itself and takes the BEP42-valid id (the routing tables are rebuilt under the new id); what was
+/// cached before stays cached, and the statistics stay the aggregate over it
+pub fn cache_case_r(r: &mut Rng, n_targets: usize, n_ops: usize, roll: bool, legacy: bool, rekey: bool) -> String {
     let n_peers = 4;
     let mut s = Scn::new_x(r, n_peers, false, Default::default(), legacy);
+    let vote: Option<std::net::SocketAddrV4> = if rekey {
+        let ip = std::net::Ipv4Addr::new(*r.pick(&[23u8, 45, 80, 150, 203]), r.range(1, 250) as u8, r.range(1, 250) as u8, r.range(2, 250) as u8);
+        crate::simclock::map_public(s.node.addr.port(), ip);
+        s.node.addr = std::net::SocketAddrV4::new(ip, s.node.addr.port());
+        Some(s.node.addr)
+    } else {
+        None
+    };
+    let id_at_start = *s.node.actor.id();
     let own = *s.node.actor.id();
     // target pool: index 0 is the node's own id
     let mut pool: Vec<(Id, u8)> = vec![(own, 0)];
@@ -105,6 +137,7 @@ pub fn cache_case_x(r: &mut Rng, n_targets: usize, n_ops: usize, roll: bool, leg
     }
     let silent_none = vec![false; n_peers];
     let mut pending_nc = false;
+    let mut self_entry_noted = false;
     for i in 0..n_ops {
         let tidx = if roll {
             if i < n_targets { i } else { r.below(n_targets as u64) as usize }
@@ -145,12 +178,33 @@ pub fn cache_case_x(r: &mut Rng, n_targets: usize, n_ops: usize, roll: bool, leg
         if (!roll && r.chance(1, 8)) || (roll && !legacy && i >= n_targets && r.chance(1, 5)) || no_candidates {
             silent = vec![true; n_peers];
         }
-        run_lookup(&mut s, kind, target, &silent);
-        let snap = s.snap();
-        if no_candidates && std::env::var("MLV_DEBUG_C20").is_ok() {
-            eprintln!("DBG i={} cache={} main={:?} signed={:?}", i, snap.cache.len(), snap.stats, snap.signed_stats);
+        run_lookup_v(&mut s, kind, target, &silent, vote);
+        if vote.is_some() {
+            // the ping to itself travels
+            for _ in 0..3 {
+                s.step(&mut |s, inc| s.honest(inc));
+            }
         }
-        match snap.cache.first() {
+        let snap = s.snap();
+        // after the re-key the node looks its new id up by itself: that lookup is cached like any other
+        let cur_id = *s.node.actor.id();
+        let mut self_op: Option<(bool, String)> = None;
+        if rekey && cur_id != id_at_start && !self_entry_noted {
+            if let Some(pos) = snap.cache.iter().position(|e| e.0 == cur_id) {
+                pool.push((cur_id, 0));
+                self_entry_noted = true;
+                kinds_of_cached.insert(cur_id, 0);
+                self_op = Some((pos == 0, format!("CPut false {}", entry_coq(pool.len() - 1, class_of(0), &snap.cache[pos]))));
+            }
+        }
+        if let Some((false, op)) = &self_op {
+            ops.push(op.clone());
+        }
+        let front = match &self_op {
+            Some((true, _)) => snap.cache.get(1),
+            _ => snap.cache.first(),
+        };
+        match front {
             Some(e) if e.0 == target => {
                 kinds_of_cached.insert(target, kind);
                 ops.push(format!("CPut false {}", entry_coq(tidx, class_of(kind), e)));
@@ -160,6 +214,13 @@ pub fn cache_case_x(r: &mut Rng, n_targets: usize, n_ops: usize, roll: bool, leg
                 ops.push(format!("CPut true {{| e_target := {}; e_class := {}; e_est := 0%Z; e_resp := 0%Z; e_subnets := 0%Z |}}", tidx, class_of(kind)));
             }
         }
+        if let Some((true, op)) = &self_op {
+            ops.push(op.clone());
+        }
+    }
+    if rekey && *s.node.actor.id() == id_at_start {
+        // the scenario did not happen (no re-key): make that visible as an impossible case
+        return "KCache [] [] {| dht_count := (-1)%Z; dht_sum := 0%Z; resp_count := 0%Z; resp_sum := 0%Z; subnets_sum := 0%Z |} {| dht_count := 0%Z; dht_sum := 0%Z; resp_count := 0%Z; resp_sum := 0%Z; subnets_sum := 0%Z |} (0%Z, true, 0%Z, 0%Z) (0%Z, true, 0%Z, 0%Z) 0%Z".into();
     }
     let snap = s.snap();
     let entries: Vec<String> = snap
@@ -382,6 +443,10 @@ pub fn generate(seed: u64, scale: usize, which: &str) -> Cases {
     // roll the cache: more than 1000 distinct targets, then repeats at capacity
     cases.push("roll_1000", cache_case(&mut r, 1004, 1040, true));
     cases.push("roll_1000_no_candidates", cache_case_x(&mut r, 1002, 1030, true, true));
+    // a node at a public address that re-keys after its first lookups: the cache and its statistics survive
+    for _ in 0..2 {
+        cases.push("small_pool_across_a_rekey", cache_case_r(&mut r, 6, 24, false, false, true));
+    }
     for _ in 0..(3 * scale) {
         let n = r.range(4, 12) as usize;
         cases.push("quiescence", quiet_case(&mut r, n));
